@@ -1,5 +1,7 @@
 """C05 generators: a DML specification first (table, columns, rows / SET pairs / criteria, verb), then a random call
 list that expresses it (chained inserts, scalars vs tuples vs lists, columns before/after, set/where interleaved)."""
+import json
+
 from harness.c05.engine import TABLES, STR_POOL, INT_POOL, FLOAT_POOL
 
 HOSTILE = ["it's", 'say "hi"', "back\\slash", "--c", "/*x*/", "#h", "a;b", "l1\nl2", "é✓", "''", "", " ", "%x_",
@@ -67,8 +69,8 @@ class G:
             return F(self.r.choice(cols)) if self.r.random() < 0.7 else I(self.r.choice([0, 1, 2, 3, 10]))
         if x < 0.88:
             op, l, r = self.r.choice(["add", "sub", "mul", "div"]), self.expr(cols, d - 1), self.expr(cols, d - 1)
-            if op == "mul" and r[0] == "arith" and r[1] == "div":
-                l, r = r, l      # x*(y/z) is rendered x*y/z: equal over the reals (C02 allows it), not under integer division
+            while op == "mul" and r[0] == "arith" and r[1] == "div":
+                r = self.expr(cols, d - 1)   # x*(y/z) is rendered x*y/z: equal over the reals (C02 allows it), not under integer division
             return ["arith", op, l, r, None]
         if x < 0.94:
             return ["func", "ABS", [self.expr(cols, d - 1)], None]
@@ -221,6 +223,14 @@ class G:
 
     # ---- UPDATE ----
     def update(self):
+        # a comment opened by a double-minus template ends at a newline: keep such statements on one line, so that
+        # every template has exactly one outcome
+        while True:
+            c = self._update()
+            if not (c.pop("_hazard") and "\\n" in json.dumps(c["calls"])):
+                return c
+
+    def _update(self):
         cls = self.cls()
         table = self.r.choice(["t", "t", "k"])
         cols = [c for c in TABLES[table][1]]
@@ -233,12 +243,15 @@ class G:
             sets.append([c, v])
         wheres = [self.crit(cols, 2) for _ in range(self.r.choice([0, 1, 1, 1, 2]))]
         hz = self.r.random()
+        hazard = False
         if table != "t":
             pass      # the templates are run on the unconstrained table only (one outcome per template: stable signatures)
         elif hz < self.hazards:
             sets[self.r.randrange(len(sets))][1] = ["t", self.hazard_set(setcols)]
+            hazard = True
         elif hz < 2 * self.hazards:
             wheres.insert(self.r.randrange(len(wheres) + 1), self.hazard_where(setcols))
+            hazard = True
         calls = [["set", (["s", c] if self.r.random() < 0.8 else ["f", c, self.r.random() < 0.5]), v] for c, v in sets]
         pos = 0
         for w in wheres:
@@ -253,16 +266,25 @@ class G:
             lim = self.r.choice([0, 1, 2])
             calls.insert(self.r.randrange(len(calls) + 1), ["limit", lim])
             spec["limit"] = lim
-        return {"kind": "b", "cls": cls, "start": ["update", table], "calls": calls, "spec": spec, "db": self.r.randrange(4)}
+        return {"kind": "b", "cls": cls, "start": ["update", table], "calls": calls, "spec": spec, "db": self.r.randrange(4),
+                "_hazard": hazard}
 
     # ---- DELETE ----
     def delete(self):
+        while True:
+            c = self._delete()
+            if not (c.pop("_hazard") and "\\n" in json.dumps(c["calls"])):
+                return c
+
+    def _delete(self):
         cls = self.cls()
         table = self.r.choice(["t", "t", "k", "u"])
         cols = TABLES[table][1]
         wheres = [self.crit(cols, 2) for _ in range(self.r.choice([0, 1, 1, 1, 2]))]
+        hazard = False
         if table == "t" and self.r.random() < self.hazards:
             wheres.insert(self.r.randrange(len(wheres) + 1), self.hazard_where([c for c in cols if c != "id"]))
+            hazard = True
         calls = [["where", w] for w in wheres]
         w = None
         for c in wheres:
@@ -272,7 +294,8 @@ class G:
             lim = self.r.choice([0, 1, 2])
             calls.insert(self.r.randrange(len(calls) + 1), ["limit", lim])
             spec["limit"] = lim
-        return {"kind": "b", "cls": cls, "start": ["delete", table], "calls": calls, "spec": spec, "db": self.r.randrange(4)}
+        return {"kind": "b", "cls": cls, "start": ["delete", table], "calls": calls, "spec": spec, "db": self.r.randrange(4),
+                "_hazard": hazard}
 
     # ---- malformed / unusual call lists (correspondence of the error cases; never judged by the engine) ----
     def malformed(self, which=None):
